@@ -10,6 +10,7 @@ CASES = {  # per shard
     "C19": dict(quick=60000, thorough=1500000),
     "C20": dict(quick=60000, thorough=1500000),
 }
+REENT_RULE = "; concurrent use: the operations of this property (write/parse round trips on objects private to each thread) run by 6 threads at once and compared with their results when run alone, in the plain flavour and under ThreadSanitizer"
 RULES = {
     "C16": "typed headers: generated values per header type (boundary + random) written, parsed back from a guard-page buffer and via parse(string), accessors and re-written text compared; parsed messages: every header looked up under all 2^k capitalisations (k<=6 letters in quick, k<=10 in thorough; 64 sampled above). distinct = (header, value class, text hash%64) and message shapes",
     "C17": "cookies: all 128 attribute subsets x random field values written and parsed back field-wise; hand-assembled attribute orders/cases; Cookie headers with repeated names/pairs vs jar contents and iteration; mutated strings for rejection-without-crash. distinct = attribute-set/order/jar-shape classes",
@@ -113,7 +114,22 @@ def run(pid, tier, seed, replay=None):
     mc, md, ms, mst = vlib.collect_runs(v, mres, judge_report=lambda rep: rep.get("in_repo"))
     memcheck = dict(evaluations=int(mc.get("evaluations", 0)), **mst)
 
-    v.coverage.update(memcheck_pass=memcheck, evaluations=int(evaluations), distinct_nontrivial=len(distinct), rule=RULES[pid],
+    # re-entrancy: the same kinds of operation run by several threads at once, each on objects of its own; results compared with the
+    # results obtained alone (plain flavour: many pairs; tsan flavour: ThreadSanitizer as the oracle for shared scratch state)
+    rbin = vlib.build_harness("reent", "plain")
+    rres = vlib.run_resumable(rbin, ["--prop", prop, "--seed", str(seed + 19), "--cases", str(1500 if tier == "quick" else 60000), "--threads", "6"], 2 if tier == "quick" else 4,
+                              timeout=600 if tier == "quick" else 7200, work=work, tag="rp")
+    rc_, rd, rs, rst = vlib.collect_runs(v, rres)
+    tbin = vlib.build_harness("reent", "tsan", opt="-O1")
+    tres = vlib.run_resumable(tbin, ["--prop", prop, "--seed", str(seed + 23), "--cases", str(250 if tier == "quick" else 6000), "--threads", "6"], 2 if tier == "quick" else 4,
+                              timeout=600 if tier == "quick" else 7200, work=work, env=vlib.SAN_ENV_EXPLORE, tag="rt")
+    tc_, td, ts_, tst = vlib.collect_runs(v, tres, judge_report=lambda rep: rep["tool"] != "tsan" or rep.get("in_repo"))
+    distinct |= rd | td
+    reent = dict(evaluations_plain=int(rc_.get("evaluations", 0)), evaluations_tsan=int(tc_.get("evaluations", 0)), counts=rc_.get("counts", {}), samples=rs[:4], plain=rst, tsan=tst)
+    if int(rc_.get("evaluations", 0)) == 0 or int(tc_.get("evaluations", 0)) == 0:
+        v.add_inconclusive("the re-entrancy stage observed nothing")
+
+    v.coverage.update(memcheck_pass=memcheck, concurrent_use=reent, evaluations=int(evaluations), distinct_nontrivial=len(distinct), rule=RULES[pid] + REENT_RULE,
                       samples=samples[:8], monitor_counts=all_counts, sanitizer_reports_seen=san_reports,
                       sanitizer_report_keys=san_keys, shards=nsh, resumed_after_fatal_report=restarts_total)
     v.assumptions += ["library and harness built -O1/-O0 -DNDEBUG-free with -fsanitize=address,undefined,float-cast-overflow and libstdc++ vector annotations",
